@@ -10,7 +10,7 @@
     decides whether a frozen source lives in memory or on disk) is universally quantified too. *)
 From Coq Require Import ZArith NArith List Bool.
 From Exactly Require Import Lib.Text Model.Interval Model.TextOps Spec.C05
-     Proofs.TextOpsEquals Proofs.TextOpsReplace Proofs.TextOpsCorrect.
+     Proofs.TextOpsEquals Proofs.TextOpsReplace Proofs.TextOpsCorrect Proofs.TextOpsFilterC13.
 Import ListNotations.
 
 Section Statements.
@@ -95,6 +95,40 @@ Theorem C05_replace_resplits_lines :
     replace_lines replacer [] lines = lines_lf (concat (map replacer lines)).
 Proof. exact replace_resplits_lines. Qed.
 Print Assumptions C05_replace_resplits_lines.
+
+(** The memory buffer size - which decides whether a frozen source is kept in memory or in a file,
+    and with it the strategy of [equals] - never changes a verdict or a transformed text. *)
+Theorem C05_mem_buff_irrelevant :
+  forall re_search re_full re_sub py_upper py_lower is_space,
+    library_assumptions py_upper py_lower is_space ->
+    forall (mem1 mem2 : N) (e : tsource),
+      (forall m, eval_m re_search re_full re_sub py_upper py_lower is_space mem1 m
+                        (eval_src re_search re_full re_sub py_upper py_lower is_space mem1 e)
+                 = eval_m re_search re_full re_sub py_upper py_lower is_space mem2 m
+                          (eval_src re_search re_full re_sub py_upper py_lower is_space mem2 e)) /\
+      (forall T, text_of (eval_t re_search re_full re_sub py_upper py_lower is_space mem1 T
+                                 (eval_src re_search re_full re_sub py_upper py_lower is_space mem1 e))
+                 = text_of (eval_t re_search re_full re_sub py_upper py_lower is_space mem2 T
+                                   (eval_src re_search re_full re_sub py_upper py_lower is_space mem2 e))).
+Proof. exact mem_buff_irrelevant. Qed.
+Print Assumptions C05_mem_buff_irrelevant.
+
+(** [filter LINE-MATCHER]: the implementation does not offer every line to the matcher - it first
+    computes a line-number interval from the matcher and reads only that interval (property C13).
+    Composition with C13's model of that algorithm ([Interval.filter_impl], proved exact in
+    C13_filter_exact): for every line matcher of this model, translated to C13's matcher language
+    ([to_c13]: [contents] leaves become matchers of unknown class decided by this model's evaluator),
+    the algorithm with read-ahead yields exactly the lines the [TFilter] clause of [eval_t] yields. *)
+Theorem C05_filter_read_ahead_exact :
+  forall re_search re_full re_sub py_upper py_lower is_space mem_buff (lm : TextOps.lmatcher) (lines : list text),
+    filter_impl text no_io
+                (contents_oracle re_search re_full re_sub py_upper py_lower is_space mem_buff (contents_leaves lm))
+                true (to_c13 lm 0) lines
+    = map fst (filter (fun line => eval_lm re_search re_full re_sub py_upper py_lower is_space mem_buff lm
+                                           (fst (snd line)) (snd (snd line)))
+                      (original_and_model_iter lines)).
+Proof. exact filter_read_ahead_exact. Qed.
+Print Assumptions C05_filter_read_ahead_exact.
 
 (** ** Non-vacuity (concrete oracles: pattern 0 = "\n" replaced by ""; pattern 1 = "a" / "a") *)
 Definition ex_sub (k : nat) (t : text) : text := filter (fun c => negb (N.eqb c NL)) t.
